@@ -353,3 +353,24 @@ fn c18_tiny_offset_from_iterator() {
     for it in v.iter() { let _ = it[0]; n += 1; if n > 3 { break; } }
     assert!(n <= 2, "C18: the left-over vector has more items than were ever written");
 }
+
+/// C18: the same boundary with unsized items, where the OLD chain has a sealed first item: a FromIterator that fails after it
+/// wrote the oversized item's payload must still leave a terminated, valid chain (the old offset slot must not be left
+/// pointing into the fresh payload)
+#[kani::proof]
+#[kani::unwind(20)]
+fn c18_tiny_offset_from_iterator_over_sealed_chain() {
+    // BOUNDED: 16-byte buffer; current value [[a, a], [b]]; replacement: one 5-element item (extent 7 == L::MAX), symbolic elements
+    let mut buf: [u8; 16] = kani::any();
+    let (a, b): (u8, u8) = (kani::any(), kani::any());
+    let e: [u8; 5] = kani::any();
+    let v = FlexVec::<FlatVec<u8, u8>, tiny::Tiny>::default_in_place(&mut buf).unwrap();
+    assert!(v.push(flat_vec![a, a]).is_ok() && v.push(flat_vec![b]).is_ok(), "C12: a push that fits was refused");
+    assert!(v.len() == 2, "C12: len() differs from the abstract sequence");
+    let r = v.assign_in_place(flatty::flex::FromIterator::new([flatty::vec::FromArray(e)])).map(|_| ());
+    assert!(r.is_err(), "C18: an item extent equal to L::MAX was sealed");
+    assert!(FlexVec::<FlatVec<u8, u8>, tiny::Tiny>::validate(v.as_bytes()).is_ok(), "C18: target bytes no longer validate after a failed assignment");
+    let _ = v.size();
+    let mut n = 0;
+    for it in v.iter() { assert!(it.len() <= it.capacity(), "C18: invalid item left behind"); n += 1; if n > 4 { break; } }
+}
